@@ -85,7 +85,19 @@ fn is_ice(e: &sway_error::error::CompileError) -> bool {
 fn ice_signature(msg: &str) -> String {
     let m = msg.trim_start_matches("Internal compiler error: ");
     // drop quoted / numbered specifics after the first sentence part
-    let head: String = m.chars().take(60).collect();
+    // digit runs are collapsed BEFORE cutting, so that names such as `f0_81` / `f12_103` do not
+    // shift what the 60-character head contains
+    let mut collapsed = String::new();
+    for c in m.chars() {
+        if c.is_ascii_digit() {
+            if !collapsed.ends_with('0') {
+                collapsed.push('0');
+            }
+        } else {
+            collapsed.push(c);
+        }
+    }
+    let head: String = collapsed.chars().take(60).collect();
     format!("ice:{}", bucket(&head).trim())
 }
 
